@@ -2,6 +2,8 @@
 #define PHOTOSPLINE_FITSIO_H
 
 #include <string.h>
+#include <cmath>
+#include <limits>
 
 namespace photospline{
 	
@@ -325,6 +327,14 @@ bool splinetable<Alloc>::read_fits_core_impl(fitsfile* fits, const std::string& 
 	std::copy(naxes_temp.rbegin(),naxes_temp.rend(),naxes);
 	
 	// Compute the total array size and the strides into each dimension
+	{
+		uint64_t total=1;
+		for(size_t i=0; i<ndim; i++){
+			if(naxes[i]!=0 && total>std::numeric_limits<uint64_t>::max()/sizeof(float)/naxes[i])
+				throw std::runtime_error("Coefficient array is too large");
+			total*=naxes[i];
+		}
+	}
 	strides = allocate<uint64_t>(ndim);
 	strides[0]=1;
 	std::partial_sum(naxes_temp.begin(),naxes_temp.end()-1,strides+1,std::multiplies<uint64_t>());
@@ -354,6 +364,15 @@ bool splinetable<Alloc>::read_fits_core_impl(fitsfile* fits, const std::string& 
 		if(nknots_temp<=0)
 			throw std::runtime_error("Invalid number of knots ("+std::to_string(nknots_temp)+") in dimension "+std::to_string(i));
 		nknots[i]=nknots_temp;
+		//The header, the coefficient array and the knot vectors must describe the
+		//same spline: evaluation indexes all three without further checks.
+		if(nknots[i]<2*uint64_t(order[i])+2)
+			throw std::runtime_error("Too few knots ("+std::to_string(nknots[i])+") for order "
+			                         +std::to_string(order[i])+" in dimension "+std::to_string(i));
+		if(naxes[i]!=nknots[i]-order[i]-1)
+			throw std::runtime_error("Number of coefficients ("+std::to_string(naxes[i])
+			                         +") in dimension "+std::to_string(i)+" does not match "
+			                         +std::to_string(nknots[i])+" knots of order "+std::to_string(order[i]));
 		
 		//Allow spline evaluations to run off the ends of the
 		//knot field without segfaulting.
@@ -364,6 +383,10 @@ bool splinetable<Alloc>::read_fits_core_impl(fitsfile* fits, const std::string& 
 		fits_read_pix(fits, TDOUBLE, &fpix, nknots[i], NULL, &knots[i][0], NULL, &error);
 		if (error != 0)
 			throw std::runtime_error("Error reading knot vector "+std::to_string(i)+" data");
+		for(uint64_t j=0; j<nknots[i]; j++){
+			if(!std::isfinite(knots[i][j]) || (j>0 && knots[i][j]<knots[i][j-1]))
+				throw std::runtime_error("Knot vector "+std::to_string(i)+" is not finite and non-decreasing");
+		}
 	}
 	
 	//Read the axes extents, stored in a single extension HDU.
